@@ -386,5 +386,10 @@ func Run(c *common.Ctx) error {
 		}
 	}
 	c.Sample(map[string]any{"case": cases[2], "cases": len(cases)})
+	if c.Thorough() {
+		if err := lockPageImport(c, c.Rng.Fork()); err != nil {
+			return err
+		}
+	}
 	return nil
 }
